@@ -415,37 +415,22 @@ func classifyValue(info *types.Info, fd *ast.FuncDecl, e ast.Expr, depth int) st
 		}
 		return "var:" + id.Name
 	}
-	// a simple helper (`return <expr>`) is classified by what it returns
+	// a simple helper (`return <expr>`) is classified by what it returns; a status error it builds from its
+	// parameters (`errWithReason(status.New(codes.X, …), Reason_Y)`) takes code and reason from the call's arguments
 	if call, ok := e.(*ast.CallExpr); ok && depth < 4 {
 		if hfi, ret := simpleHelper(info, call); hfi != nil {
+			if code, reason := statusParts(info, call, 0); code != "" {
+				if reason != "" {
+					return "err(" + code + "/" + reason + ")"
+				}
+				return "err(" + code + ")"
+			}
 			return classifyValue(hfi.Pkg.TypesInfo, hfi.Decl, ret, depth+1)
 		}
 	}
-	// gRPC status errors: find the codes.X constant and the details reason
-	code, reason := "", ""
-	ast.Inspect(e, func(n ast.Node) bool {
-		switch x := n.(type) {
-		case *ast.SelectorExpr:
-			if cst, ok := info.Uses[x.Sel].(*types.Const); ok && cst.Pkg() != nil {
-				switch {
-				case cst.Pkg().Path() == "google.golang.org/grpc/codes":
-					code = cst.Name()
-				}
-			}
-		case *ast.CompositeLit:
-			if tv, ok := info.Types[x]; ok {
-				if isNamed(tv.Type, spbPath, "ModifyRPCErrorDetails") || isNamed(tv.Type, spbPath, "FlushResponseError") {
-					reason = "-"
-					for k, v := range compositeFields(x) {
-						if k == "Reason" || k == "Status" {
-							reason = constName(info, v)
-						}
-					}
-				}
-			}
-		}
-		return true
-	})
+	// gRPC status errors: find the codes.X constant and the details reason (through simple helpers and the
+	// parameters of helpers spliced into fd)
+	code, reason := statusPartsIn(info, fd, e)
 	if code != "" {
 		if reason != "" {
 			return "err(" + code + "/" + reason + ")"
@@ -541,4 +526,114 @@ func completeLit(info *types.Info, fd *ast.FuncDecl, v types.Object, r string) s
 	}
 	sort.Strings(ks)
 	return r[:open+1] + strings.Join(ks, ",") + "}"
+}
+
+// statusParts finds the gRPC code constant and the details reason of a status error expression, following simple
+// helpers: inside a helper, a parameter stands for the caller's argument.
+func statusParts(info *types.Info, e ast.Expr, depth int) (code, reason string) {
+	return statusPartsSub(info, e, depth, nil, nil)
+}
+
+// statusPartsIn: as statusParts, for an expression of (a helper spliced into) fd: a parameter of a spliced-in helper
+// stands for the argument it is bound to.
+func statusPartsIn(info *types.Info, fd *ast.FuncDecl, e ast.Expr) (code, reason string) {
+	if fd == nil || fd.Body == nil {
+		return statusParts(info, e, 0)
+	}
+	sub := map[types.Object]ast.Expr{}
+	for _, fr := range framesIn(fd) {
+		for o, a := range fr.Binds {
+			if _, dup := sub[o]; dup {
+				sub[o] = nil // the helper's body is shared by several call sites of fd: ambiguous
+			} else {
+				sub[o] = a
+			}
+		}
+	}
+	for o, a := range sub {
+		if a == nil {
+			delete(sub, o)
+		}
+	}
+	if len(sub) == 0 {
+		return statusParts(info, e, 0)
+	}
+	return statusPartsSub(info, e, 0, sub, info)
+}
+
+func statusPartsSub(info *types.Info, e ast.Expr, depth int, subst map[types.Object]ast.Expr, callerInfo *types.Info) (code, reason string) {
+	if depth > 3 {
+		return
+	}
+	resolve := func(v ast.Expr) (ast.Expr, *types.Info) {
+		if id, ok := ast.Unparen(v).(*ast.Ident); ok && subst != nil {
+			if a, ok := subst[info.ObjectOf(id)]; ok {
+				return a, callerInfo
+			}
+		}
+		return v, info
+	}
+	ast.Inspect(e, func(n ast.Node) bool {
+		switch x := n.(type) {
+		case *ast.Ident:
+			// a parameter holding the status (or the code) built by the caller
+			if subst != nil {
+				if a, ok := subst[info.ObjectOf(x)]; ok {
+					c2, r2 := statusPartsSub(callerInfo, a, depth+1, nil, nil)
+					if code == "" {
+						code = c2
+					}
+					if reason == "" {
+						reason = r2
+					}
+				}
+			}
+		case *ast.SelectorExpr:
+			if cst, ok := info.Uses[x.Sel].(*types.Const); ok && cst.Pkg() != nil && cst.Pkg().Path() == "google.golang.org/grpc/codes" {
+				code = cst.Name()
+			}
+		case *ast.CompositeLit:
+			if tv, ok := info.Types[x]; ok {
+				if isNamed(tv.Type, spbPath, "ModifyRPCErrorDetails") || isNamed(tv.Type, spbPath, "FlushResponseError") {
+					if reason == "" {
+						reason = "-"
+					}
+					for k, v := range compositeFields(x) {
+						if k == "Reason" || k == "Status" {
+							rv, ri := resolve(v)
+							if cn := constName(ri, rv); cn != "" {
+								reason = cn
+							}
+						}
+					}
+				}
+			}
+		case *ast.CallExpr:
+			if hfi, ret := simpleHelper(info, x); hfi != nil {
+				hinfo := hfi.Pkg.TypesInfo
+				sub := map[types.Object]ast.Expr{}
+				for i, p := range paramObjs(hinfo, hfi.Decl) {
+					if i < len(x.Args) && p != nil {
+						a, _ := resolve(x.Args[i])
+						sub[p] = a
+					}
+				}
+				ci := info
+				if callerInfo != nil && subst != nil {
+					ci = info // arguments written in this function; parameters among them were resolved above
+				}
+				c2, r2 := statusPartsSub(hinfo, ret, depth+1, sub, ci)
+				if code == "" {
+					code = c2
+				}
+				if reason == "" || reason == "-" {
+					if r2 != "" {
+						reason = r2
+					}
+				}
+			}
+		}
+		return true
+	})
+	return
 }
